@@ -3,7 +3,7 @@ from . import core
 from ..common import Check
 
 INVS = ['TypeOK', 'C03_InOrderOnce', 'C03_OnlyAccepted', 'C03_NoLoss', 'C03_Retrievable',
-        'C03_PollingOnlyBeforeUpgrade', 'C06_UpgradingOnlyDuringHandshake', 'C06_NeverBothFlags']
+        'C06_UpgradingOnlyDuringHandshake', 'C06_NeverBothFlags']
 
 
 def run(tier):
